@@ -152,7 +152,11 @@ func fsModel(init *model.FS, exactList bool) porcupine.Model {
 				return ok && !r.Refused && sameBytes(want, r.Data), st
 			case "delete":
 				if !m.Delete(op.D, op.N) {
-					// outside the generated preconditions; accept only a refusal
+					// the name is not there: DirFs refuses (unlinkat fails),
+					// MemFs returns without doing anything
+					if exactList {
+						return !r.Refused, st
+					}
 					return r.Refused, st
 				}
 				return !r.Refused, mkState(m)
@@ -295,6 +299,36 @@ func (c14) Gen(rng *simrt.Rand, tier string, run int) interface{} {
 			budget -= 2
 		}
 		p.Clients = append(p.Clients, ops)
+	}
+	if len(p.Clients) >= 2 && rng.Chance(1, 5) {
+		// a name that one client creates while another deletes it (and creates
+		// it again): Delete of a name that is not there (yet) is refused by
+		// DirFs and is a no-op in MemFs; the model knows both
+		x := rng.Intn(len(p.Clients))
+		y := (x + 1 + rng.Intn(len(p.Clients)-1)) % len(p.Clients)
+		d := p.Dirs[rng.Intn(len(p.Dirs))]
+		insert := func(c int, ops ...FsOp) {
+			at := rng.Intn(len(p.Clients[c]) + 1)
+			// never between a create/open and the operations on its handle
+			for at < len(p.Clients[c]) && needsHandle(p.Clients[c][at]) {
+				at++
+			}
+			p.Clients[c] = append(append(append([]FsOp{}, p.Clients[c][:at]...), ops...), p.Clients[c][at:]...)
+		}
+		hx, hy := 100*(x+1)+60, 100*(y+1)+60
+		xs := []FsOp{{K: "create", D: d, N: "r", H: hx}}
+		if rng.Chance(1, 2) {
+			xs = append(xs, FsOp{K: "append", H: hx, ID: nextChunk(), Len: 8})
+		}
+		ys := []FsOp{{K: "delete", D: d, N: "r"}}
+		if rng.Chance(2, 3) {
+			ys = append(ys, FsOp{K: "create", D: d, N: "r", H: hy})
+		}
+		if rng.Chance(1, 3) {
+			ys = append(ys, FsOp{K: "delete", D: d, N: "r"})
+		}
+		insert(x, xs...)
+		insert(y, ys...)
 	}
 	return p
 }
